@@ -12,6 +12,7 @@ ignores the tag name and `close()` ignores open elements.  What is true, and pro
   end tag are rejected wherever they occur.
 -/
 import OfxProofs.Lemmas.Builder
+import OfxProofs.Props.C02
 
 namespace Ofx.C08
 open Ofx Ofx.Lexer Ofx.Builder Ofx.Spec
@@ -300,6 +301,33 @@ theorem C08_crossed_accepted :
 
 /-- the empty body: `None`, no error -/
 theorem C08_empty_none : parse [] = .ok none := by rfl
+
+/-- **truncation is never detected**: cut *any* valid aggregate right before its final end tag (after any number of
+    complete children, in any rendering) and the pinned parser returns the complete tree, without an error -/
+theorem C08_truncation_accepted (t w0 : Str) (cs : List Tree) (body : Str) (ht : tagOk t = true) (h0 : ws w0 = true)
+    (hl : RendersList true cs body) (hsafe : cdSafe body = true) :
+    parse (startTag t ++ (w0 ++ body)) = .ok (some (Tree.agg t cs)) := by
+  open Ofx.C02 in
+  obtain ⟨htne, htc⟩ := tagChars ht
+  obtain ⟨hshape, -⟩ := rendersList_facts hl
+  have haft : After body := by
+    rcases hshape with ⟨-, rfl⟩ | ⟨-, hb⟩
+    · exact Or.inl rfl
+    · exact Or.inr (Or.inl hb)
+  have hcl : dropPrefix (endTag t) body = none := by
+    rcases hshape with ⟨-, rfl⟩ | ⟨-, hb⟩
+    · rfl
+    · exact startsName_noEnd t hb
+  have hm := matchHere_open t w0 body htne htc (ws_notLt h0) (after_stops haft)
+    (dropPrefix_ws_or _ w0 body ⟨_, rfl⟩ h0 (after_nocdata haft)) hcl
+  have h1 : run (startTag t ++ (w0 ++ body)) St.init = run body (St.init.push t) :=
+    run_tok' _ (startTag t ++ w0) body _ St.init _ (by simp) (by simp [startTag]) hm rfl
+      (step_open t _ _ St.init ht (groom_ws w0 h0) (Or.inr rfl))
+  have h2 := rendersList_ok hl [] (St.init.push t) (by simp [St.push]) (Or.inl rfl)
+    (fun _ _ tg _ => by simp [endTag, dropPrefix]) (by simpa using hsafe)
+  simp only [List.append_nil] at h2
+  rw [parse_eq, h1, h2, run_nil, addKids_push]
+  rfl
 
 theorem C08_sound_full_false : ¬ C08_sound_full := by
   intro h
